@@ -278,6 +278,46 @@ func genL2(r *rng.R, g *qgen.G, seeds []string) (*l2Case, bool) {
 		}
 		c.Args = append(c.Args, arg)
 	}
+	if r.Chance(1, 12) || (focusBulk && r.Chance(1, 4)) {
+		// both slice forms of one type, []T and []*T, filled with different values: the
+		// statement must use []T for every column and reject the unused []*T
+		for _, a := range c.Args {
+			v := reflect.ValueOf(a)
+			t := v.Type()
+			if t.Kind() != reflect.Slice || t.Name() != "" || v.Len() == 0 {
+				continue
+			}
+			et := t.Elem()
+			var other reflect.Value
+			if et.Kind() == reflect.Pointer {
+				if k := et.Elem().Kind(); k != reflect.Struct && k != reflect.Map {
+					continue
+				}
+				other = reflect.MakeSlice(reflect.SliceOf(et.Elem()), v.Len(), v.Len())
+				f := &desc.Filler{R: r.Fork(), Keys: []string{"k"}}
+				for i := 0; i < v.Len(); i++ {
+					other.Index(i).Set(f.Fill(et.Elem(), 0))
+				}
+			} else if et.Kind() == reflect.Struct || et.Kind() == reflect.Map {
+				other = reflect.MakeSlice(reflect.SliceOf(reflect.PointerTo(et)), v.Len(), v.Len())
+				f := &desc.Filler{R: r.Fork(), Keys: []string{"k"}}
+				for i := 0; i < v.Len(); i++ {
+					p := reflect.New(et)
+					p.Elem().Set(f.Fill(et, 0))
+					other.Index(i).Set(p)
+				}
+			} else {
+				continue
+			}
+			if r.Chance(1, 2) {
+				c.Args = append(c.Args, other.Interface())
+			} else {
+				c.Args = append([]any{other.Interface()}, c.Args...)
+			}
+			c.Note = append(c.Note, "arg-both-slice-forms")
+			break
+		}
+	}
 	if r.Chance(1, 5) {
 		switch r.Intn(14) {
 		case 12, 13:
